@@ -858,7 +858,7 @@ func TestVerif_C07_Random(t *testing.T) {
 func TestVerif_C07_Lattice(t *testing.T) {
 	seed := kit.Seed(7)
 	shard, _ := kit.Shard()
-	r := kit.NewResult(t, "c07-lattice", seed, "full product capability{none, sudo on the called path, sudo only elsewhere, root} x namespaces{root, ns1, root->ns1} x endpoint{create, create-orphan, role without lists, role allowed, role allowed+glob, role disallowed, role disallowed glob, role allowed+disallowed, role allowing root} x requested policies{none, subset, superset, all of the parent plus one, default, root, root in upper case, response-wrapping (two spellings), glob-matched, role-disallowed} x no_default_policy x parent has default; capability x namespaces x endpoint{create, create-orphan, plain role, orphan role, period role, explicit-max role} x flag{no_parent, period, id, batch type, explicit max, huge ttl, combinations}; batch and use-limited parents x capability x namespaces x endpoints; "+c07Rule0)
+	r := kit.NewResult(t, "c07-lattice", seed, "full product capability{none, sudo on the called path, sudo only elsewhere, root} x namespaces{root, ns1, root->ns1} x endpoint{create, create-orphan, role without lists, role allowed, role allowed+glob, role disallowed, role disallowed glob, role allowed+disallowed, role allowing root, role with token_no_default_policy} x requested policies{none, subset, superset, all of the parent plus one, default, root, root in upper case, response-wrapping (two spellings), glob-matched, role-disallowed} x no_default_policy x parent has default; capability x namespaces x endpoint{create, create-orphan, plain role, orphan role, period role, explicit-max role, default-batch role with explicit max} (with a renewal attempt) x flag{no_parent, period, id, batch type, explicit max, huge ttl, combinations}; batch and use-limited parents x capability x namespaces x endpoints; "+c07Rule0)
 	defer r.Write(t)
 	w := c07Boot(t)
 	rng := kit.NewRand(seed, uint64(shard)+900)
@@ -910,10 +910,12 @@ func TestVerif_C07_Lattice(t *testing.T) {
 		"role-both":       func(n string) *c07Role { return &c07Role{Name: n, Renewable: true, Allowed: []string{"a", "b", "c", "ops-x"}, Disallowed: []string{"b", "ops-x"}} },
 		"role-allowroot":  func(n string) *c07Role { return &c07Role{Name: n, Renewable: true, Allowed: []string{"root", "a"}} },
 		"role-emax":       func(n string) *c07Role { return &c07Role{Name: n, Renewable: true, ExplicitMax: "3h"} },
+		"role-nodefault":  func(n string) *c07Role { return &c07Role{Name: n, Renewable: true, NoDefault: true} },
+		"role-defbatch":   func(n string) *c07Role { return &c07Role{Name: n, Renewable: true, Type: "default-batch", ExplicitMax: "3h"} },
 		"role-orphan":     func(n string) *c07Role { return &c07Role{Name: n, Renewable: true, Orphan: true} },
 		"role-period":     func(n string) *c07Role { return &c07Role{Name: n, Renewable: true, Period: "20m"} },
 	}
-	endpoints := []string{"create", "create-orphan", "role-nolists", "role-allowed", "role-allowglob", "role-disallowed", "role-denyglob", "role-both", "role-allowroot"}
+	endpoints := []string{"create", "create-orphan", "role-nolists", "role-allowed", "role-allowglob", "role-disallowed", "role-denyglob", "role-both", "role-allowroot", "role-nodefault"}
 	requested := map[string][]string{
 		"none": nil, "subset": {"a"}, "superset": {"a", "c"}, "default": {"default"}, "root": {"root"},
 		"non-assignable": {"response-wrapping"}, "glob-matched": {"dev-db"}, "role-disallowed": {"b", "ops-x"},
@@ -926,6 +928,7 @@ func TestVerif_C07_Lattice(t *testing.T) {
 	}
 	sort.Strings(reqKeys)
 	modes := []nsm{{"", ""}, {c07NS1, c07NS1}, {"", c07NS1}}
+	renew := false
 	do := func(capability, ep string, m nsm, hasDefault bool, fill func(q *c07Req)) {
 		n++
 		id := fmt.Sprintf("lat:%d", n)
@@ -945,13 +948,14 @@ func TestVerif_C07_Lattice(t *testing.T) {
 		if len(q.Policies) > 0 && q.Policies[0] == "@parent" {
 			q.Policies = append(append([]string{}, ps.Policies...), q.Policies[1:]...)
 		}
-		w.run(r, id, ps, q, false)
+		w.run(r, id, ps, q, renew)
 	}
 	for _, capability := range []string{"none", "sudo", "elsewhere", "root"} {
 		for _, m := range modes {
 			if capability == "root" && m.pns != "" {
 				continue
 			}
+			renew = false
 			for _, ep := range endpoints {
 				for _, rk := range reqKeys {
 					if capability == "elsewhere" && !(rk == "none" || rk == "superset" || rk == "root" || rk == "parent-plus" || rk == "role-disallowed") {
@@ -973,7 +977,8 @@ func TestVerif_C07_Lattice(t *testing.T) {
 					}
 				}
 			}
-			for _, ep := range []string{"create", "create-orphan", "role-nolists", "role-orphan", "role-period", "role-emax"} {
+			renew = true
+			for _, ep := range []string{"create", "create-orphan", "role-nolists", "role-orphan", "role-period", "role-emax", "role-defbatch"} {
 				for _, flag := range []string{"no_parent", "period", "id", "batch", "explicit", "bigttl", "period+explicit", "explicit+bigttl", "smallexplicit+bigttl"} {
 					do(capability, ep, m, true, func(q *c07Req) {
 						switch flag {
@@ -1001,6 +1006,7 @@ func TestVerif_C07_Lattice(t *testing.T) {
 			}
 		}
 	}
+	renew = false
 	// batch and use-limited parents: nothing at all may be created, whatever the capability
 	for _, special = range []string{"batch", "uses"} {
 		for _, capability := range []string{"none", "sudo"} {
